@@ -359,11 +359,17 @@ Fixpoint param_subst_loop (ms : list string) (cur : string) (failed : bool) : M 
    match in turn is the same as long as outputs hold no back-ticks; the model replaces all occurrences of
    the match text (equal texts give equal outputs). *)
 
+(* a value matched by the quoted alternative starts and ends with one delimiting quote; the Go code slices
+   value[1 : len(value)-1] (fix 0f1faec; before it strings.Trim removed every leading / trailing quote): out of
+   range - a Panic - on a one-character value, which the regular expression never produces (hypothesis
+   tok_quoted of the theorems) *)
 Definition parseParamValue_one (eval : bool) (nv : string * string) : M (string * string) :=
   let (name, value) := nv in
+  if prefixb (str1 c_dquote) value && Nat.ltb (slen value) 2 then lift Panic
+  else
   if prefixb (str1 c_dquote) value || prefixb "`" value then
     let value1 := if prefixb (str1 c_dquote) value
-                  then replace_all (str1 c_bslash +++ str1 c_dquote) (str1 c_dquote) (trim_char c_dquote value)
+                  then replace_all (str1 c_bslash +++ str1 c_dquote) (str1 c_dquote) (strip_ends value)
                   else value in
     if eval then
       vf <- param_subst_loop (backtick_matches value1) value1 false ;;
